@@ -9,7 +9,8 @@ package main
 // WIRE, the nicks of other users) whether the event is conformant, sends the line(s) / performs the
 // client-side action, then the sync marker "PING :m<k>" and collects what the client wrote before
 // "PONG :m<k>".  At each marker: Config().Me (nil?, Nick) BEFORE calling Me(), then Me() (nil?, Nick),
-// and the NICK lines the client wrote during the step.
+// then Config().Me again, the nil-ness of Config().Me seen by a foreground CONNECTED handler during
+// the step, and the NICK lines the client wrote during the step.
 // kind "dnn": client.DefaultNewNick on one string.
 //
 // input / observation layout: see coq/Entry/EntryC17.v
@@ -264,6 +265,18 @@ func c17Run(in Fields) Fields {
 	if c.track {
 		conn.EnableStateTracking()
 	}
+	// where user code would dereference it: a foreground CONNECTED handler looks at Config().Me
+	var connMu sync.Mutex
+	var connSeen []byte
+	conn.HandleFunc(client.CONNECTED, func(cc *client.Conn, _ *client.Line) {
+		b := byte('o')
+		if cc.Config().Me == nil {
+			b = 'n'
+		}
+		connMu.Lock()
+		connSeen = append(connSeen, b)
+		connMu.Unlock()
+	})
 	errc := make(chan error, 1)
 	go func() { errc <- conn.Connect() }()
 	var srv net.Conn
@@ -346,6 +359,16 @@ func c17Run(in Fields) Fields {
 		} else {
 			obs = append(obs, F("ok", me.Nick)...)
 		}
+		if cm2 := conn.Config().Me; cm2 == nil {
+			obs = append(obs, F("nil", "")...)
+		} else {
+			obs = append(obs, F("ok", cm2.Nick)...)
+		}
+		connMu.Lock()
+		seen := append([]byte{}, connSeen...)
+		connSeen = connSeen[:0]
+		connMu.Unlock()
+		obs = append(obs, F(seen)...)
 		obs = append(obs, F(len(nl), nl)...)
 	}
 	srv.Close()
